@@ -192,6 +192,8 @@ class Check:
         self.level = level
         self.tier = tier
         os.environ["VERIF_TIER"] = tier          # read by the per-instance budgets (budgets()) in the pool workers
+        if tier == "thorough":
+            os.environ.setdefault("VERIF_SECOND_SOLVER", "1")     # unit harnesses re-decide their first queries with cvc5 (vlib/second.py)
         self.seed = seed
         self.rule = rule
         self.t0 = time.time()
